@@ -384,11 +384,30 @@ EPOCH_RULE = ("one evaluation = one ForwardGlobalEpoch, one guard or one list re
               "phase) pairs that overlapped foreign operations")
 
 
+START_RULE = ("; mode=epochstart: fresh managers whose first CreateEpochGuard calls are made by all workers at the same "
+              "instant (spin barrier, nanosecond skews; persistent threads that own their IDs and fresh threads); "
+              "sub-workload D: workers live for a handful of operations and a dedicated thread starts each successor onto "
+              "the vacated ID at once while the coordinator is parked inside its scan of the per-thread slots")
+
+
 def _epoch_extra(subs):
     def f(rng, n, i):
         return {"sub": subs[i % len(subs)], "pace": rng.choice([0, 2000, 2000, 20000, 50000]),
                 "fwdchaos": 1 if rng.random() < 0.25 else 0, "preempt": 1 if rng.random() < 0.5 else 0}
     return f
+
+
+def duo_jobs(tier, seed, runs_q=2, runs_t=8):
+    # two managers, each with its own coordinator, forwarding at the same time
+    return thr_jobs("epochduo", [2, 3, 8] if tier == "quick" else [2, 3, 5, 8, 16], seed + 8,
+                    runs_q if tier == "quick" else runs_t, 1 if tier == "quick" else 5,
+                    extra=lambda rng, n, i: {"pace": rng.choice([0, 0, 2000, 20000]), "preempt": i % 2})
+
+
+DUO_RULE = ("; mode=epochduo: two managers in one process, each forwarded by its own coordinator at the same time, "
+            "workers hold guards of either or both managers; every coordinator checks its own list after every forward "
+            "(guard epoch first, preceding epoch second, strictly descending, live guards contained, exactly "
+            "{current, current-1} when no guard of that manager existed during the window)")
 
 
 def spec_C04(prop, tier, seed, t0):
@@ -398,11 +417,18 @@ def spec_C04(prop, tier, seed, t0):
     if tier == "quick":
         jobs += thr_jobs("epoch", [BIG_CAP], seed + 4, 3, 1, extra=_epoch_extra(["A"]))
     # fresh managers first used by all workers at the same instant
-    jobs += thr_jobs("epochstart", [3, 8] if tier == "quick" else [2, 3, 5, 8, 16], seed + 6, 2 if tier == "quick" else 10,
-                     1 if tier == "quick" else 5, extra=lambda rng, n, i: {"preempt": i % 2})
+    jobs += thr_jobs("epochstart", [3, 8] if tier == "quick" else [2, 3, 5, 8, 16, BIG_CAP], seed + 6, 4 if tier == "quick" else 12,
+                     1 if tier == "quick" else 5, extra=lambda rng, n, i: {"preempt": 1 if i % 4 == 3 else 0})
+    # thread churn at full speed (lifetimes of a few operations, successors steered onto the vacated ID by a dedicated
+    # thread) while the coordinator is parked inside its scan of the per-thread slots
+    jobs += thr_jobs("epoch", [2, 3, 8] if tier == "quick" else [2, 3, 5, 8, 16, BIG_CAP], seed + 7, 4 if tier == "quick" else 16,
+                     1 if tier == "quick" else 6, extra=_epoch_extra(["D"]))
+    jobs += duo_jobs(tier, seed)
     return _mk(prop, tier, seed, t0, jobs, {"guard_forward_pairs_checked": 50000, "guard_forward_pairs_on_reused_id": 5000,
-                                           "thread_replacements": 60, "chaos_overlaps:43+44": 20},
-               rule=EPOCH_RULE, assumptions=THR_ASSUME)
+                                           "thread_replacements": 3000, "chaos_overlaps:43+44": 20, "chaos_overlaps:60": 1000,
+                                           "fresh_manager_rounds": 10000, "sole_surviving_guard_forward_pairs_checked": 30000,
+                                           "forwards_started_while_the_other_manager_was_forwarding": 10000},
+               rule=EPOCH_RULE + START_RULE + DUO_RULE, assumptions=THR_ASSUME)
 
 
 def spec_C16(prop, tier, seed, t0):
@@ -412,6 +438,7 @@ def spec_C16(prop, tier, seed, t0):
     jobs += thr_jobs("model", caps, seed + 1, 2 if tier == "quick" else 10, 4 if tier == "quick" else 20)
     # very long histories: every power of two up to 2^24 (quick) / 2^32 (thorough, ~5 min on one core) is crossed
     jobs += thr_jobs("long", [1, 8], seed + 2, 1, 24 if tier == "quick" else 32, timeout=3600, cost=1)
+    jobs += duo_jobs(tier, seed, 1, 4)
     return _mk(prop, tier, seed, t0, jobs, {"forwards": 200000, "quiescent_checks": 50, "monotonic_read_checks": 4000,
                                            "powers_of_two_crossed": 30, "guards_assigned_over_live_guard_of_other_manager": 100},
                rule=EPOCH_RULE, assumptions=THR_ASSUME)
@@ -424,8 +451,10 @@ def spec_C17(prop, tier, seed, t0):
     acaps = [3, 8] if tier == "quick" else [3, 8]
     jobs += thr_jobs("epoch", acaps, seed + 5, 3 if tier == "quick" else 30, 1, flavor="asan",
                      extra=_epoch_extra(["A", "A", "B"]))
-    return _mk(prop, tier, seed, t0, jobs, {"lists_checked": 100000, "lists_held_across_a_node_boundary": 200},
-               rule=EPOCH_RULE + "; sub-workload A injects no delay inside EnterEpoch's read/publish gap nor inside the "
+    jobs += duo_jobs(tier, seed, 3, 10)
+    return _mk(prop, tier, seed, t0, jobs, {"lists_checked": 100000, "lists_held_across_a_node_boundary": 200,
+                                           "forwards_started_while_the_other_manager_was_forwarding": 20000},
+               rule=EPOCH_RULE + DUO_RULE + "; sub-workload A injects no delay inside EnterEpoch's read/publish gap nor inside the "
                "list lookup, B parks workers in the gap, C parks them inside the lookup traversal; every symptom is "
                "keyed by the history class the worker itself observed",
                assumptions=THR_ASSUME)
@@ -438,6 +467,7 @@ def spec_C20(prop, tier, seed, t0):
     if tier == "quick":
         jobs += thr_jobs("model", [BIG_CAP], seed + 4, 2, scale)
     jobs += thr_jobs("model", [3, 8], seed + 3, 1 if tier == "quick" else 10, 2, flavor="asan", stderr_rules=[LEAK_RULE])
+    jobs += duo_jobs(tier, seed, 1, 4)
     rule = ("one evaluation = one ForwardGlobalEpoch in a lock-step (sequential) history of guard creation/destruction "
             "by up to N-1 worker threads, after which the published list and GetMinEpoch are compared with a "
             "reference model and the number of live list nodes (over-aligned allocations) with the number of distinct "
